@@ -125,8 +125,17 @@ pub fn check(c: &Case, st: &mut Stats) -> CheckResult {
 pub fn run(ctx: &Ctx, rep: &mut Report) {
     rep.assume(ASSUME_REF);
     run_generated(ctx, rep, "generated", ctx.n(6000, 100_000), strategy, check);
+    let mut rare: Vec<Case> = Vec::new();
+    for (set, i) in rare_seed_cases() {
+        for roundtripped in [false, true] {
+            rare.push(Case { set, key: Seed32::RareSampler(i), other_key: Seed32::Zero, msg: BytesSpec { len: 17, constant: None, seed: u64::from(i) }, ctx: BytesSpec { len: 2, constant: Some(9), seed: 0 }, rnd: Seed32::Ones, muts: vec![], roundtripped });
+        }
+    }
+    crate::engine::run_list(rep, "rare_sampler_seeds", &rare, check);
+    rare_seed_maxima(rep.stats("rare_sampler_seeds"));
+    crate::props::history::run(ctx, rep, 2500, 60000);
 }
 
 pub fn replay(_ctx: &Ctx, sub: &str, case: &Value) -> Option<CheckResult> {
-    (sub == "generated").then(|| check(&from_case::<Case>(case), &mut Stats::default()))
+    (sub == "generated" || sub == "rare_sampler_seeds").then(|| check(&from_case::<Case>(case), &mut Stats::default()))
 }
